@@ -500,6 +500,16 @@ pub fn execute(scn: &Scenario, strat: &mut Strategy, opts: &ExecOpts, out_setup:
             probes.push(Op::Drain);
             probes.push(Op::Get(0, 0, Some(0), Some(free_now[free_now.len() / 2])));
         }
+        // one targeted allocation per tree that has a free frame (its last free frame; the first one may be
+        // taken by the base-order probe): a tree whose counter lost frames refuses it
+        for t in 0..w.ntrees() {
+            if let Some(&f) = free_now.iter().rev().find(|f| **f / TF == t) {
+                if free_now.len() > 1 && f != free_now[free_now.len() / 2] && f != free_now[0] {
+                    probes.push(Op::Drain);
+                    probes.push(Op::Get(0, 0, Some(0), Some(f)));
+                }
+            }
+        }
         for op in probes {
             let res = exec(w.a(), &op);
             let obs = w.obs(false);
